@@ -102,3 +102,83 @@ func init() {
 		},
 	})
 }
+
+func init() {
+	register(propSpec{
+		ID: "C07",
+		Explanation: "The optimiser is decided from the source of its two passes. OPT.WHITELIST/OPT.BINDLIT: the Delay-elision pattern is recovered as a term tree (the pattern-combinator library is interpreted as term constructors); every callee under which a Delay is elided unconditionally must be certified by the analysis of package seq in the same run (all parameters function/Seq-typed, calling it only allocates a closure), a callee with a value parameter (Bind) only with that position restricted to basic literals; the thunk must consist of the single return. OPT.ETA: the callback of etaReduction is abstractly evaluated on 26 closure shapes x callee classes; it may replace the closure only where that is meaning-preserving (arguments forwarded in order, variadic spread kept, identical types, callee a declared function / explicitly instantiated generic / method value on a rewriter-generated iterator variable). OPT.ORDER: imports are cleaned before a file is printed, files not using seq are not written. Not decided: the go-imports dependency; timing of effects inside user expressions.",
+		Trusted: []string{"semantics of the go-matcher pattern combinators (BasicLitPattern matches only *ast.BasicLit)", "go-imports.Clean", "go/ssa construction"},
+		Run: func(c *Ctx) {
+			r := newRwRT(c)
+			s := newSeqRT(c)
+			c.guard("OPT.WHITELIST", func() { r.ruleOptWhitelist(s) })
+			c.guard("OPT.ETA", r.ruleOptEta)
+			c.guard("OPT.ORDER", r.ruleOptOrder)
+			c.guard("RW.TMPL.COMBINE", r.ruleTmplCombine)
+			c.guard("RW.TMPL.FOR", r.ruleTmplFor)
+		},
+	})
+}
+
+func init() {
+	register(propSpec{
+		ID: "C13",
+		Explanation: "Bystander code is decided as: RW.MUTGUARD — every Cursor.Replace/Insert/Delete call site of package rewriter is enumerated; the five file-level callbacks are abstractly evaluated on 15 node kinds and may edit only on paths where a generator / iterator-type / Yield-call predicate answered true; all other sites are reachable only through rewriteYieldFunc or an optimiser callback. OPT.ETA — the only pass that rewrites arbitrary closures: 26 closure shapes x callee classes (function variable, builtin, conversion, method value, generic function, swapped/duplicated arguments, differing types, variadic spread) must be kept. RW.TMPL.RETURN / RW.TMPL.HOIST — returns and initialisers inside ordinary closures nested in a generator are left alone. RW.BRANCHCTX — a function literal is a boundary for break/continue/goto rewriting. RW.NODECL — no declaration is added or the declaration list rewritten. Not decided: loss of free-floating comments (behaviour-neutral except for //go: directives inside co files).",
+		Trusted: []string{"go-imports.Clean", "go/ssa construction", "pattern combinator semantics"},
+		Run: func(c *Ctx) {
+			r := newRwRT(c)
+			c.guard("RW.MUTGUARD", r.ruleMutGuard)
+			c.guard("OPT.ETA", r.ruleOptEta)
+			c.guard("RW.TMPL.HOIST", r.rulePass0)
+			c.guard("RW.BRANCHCTX", r.ruleBranchCtx)
+			c.guard("RW.TMPL.ITERTYPE", r.ruleIterType)
+			c.guard("RW.NODECL", func() { ruleRwNoDecl(c) })
+		},
+	})
+	register(propSpec{
+		ID: "C02",
+		Explanation: "Demand-driven execution is decided as the structural reasons nothing runs early or twice. Runtime: every constructor of package seq runs nothing when called (SEQ.LAZY); Bind/BindRecv store the step and return without calling the thunk or the continuation (SEQ.SUSPEND); a resumption runs the thunk once inside the call and takes-and-clears the pending step (SEQ.TAKE); Start runs nothing and its first advance starts the Seq (SEQ.START); Combine starts its second half only from the continuation of the first (SEQ.COMBINE); exhaustion is absorbing with no generator code run (SEQ.GEN). Rewriter: the generator body becomes exactly `return Start(Delay(func(){...}))` (RW.TMPL.YIELDFUNC); the statements after a yield are the body of the thunk passed to Bind and the yielded expression is its unwrapped first argument (RW.TMPL.BIND); loop conditions/posts are wrapped in function literals and bodies in Delay thunks (RW.TMPL.FOR), both halves of a Combine are thunks. Optimiser: a Delay is elided only around certified effect-free constructors or Bind with a basic literal (OPT.WHITELIST/OPT.BINDLIT). Not decided: relative timing of effects inside one user expression (Go evaluation order).",
+		Trusted: []string{"Go evaluation order inside an expression", "go/ssa construction", "pattern combinator semantics"},
+		Run: func(c *Ctx) {
+			r := newRwRT(c)
+			s := newSeqRT(c)
+			c.guard("SEQ.ROLE", func() { s.ruleRole() })
+			c.guard("SEQ.DELAY", s.ruleDelay)
+			c.guard("SEQ.SUSPEND", s.ruleSuspend)
+			c.guard("SEQ.START", func() { s.ruleStart() })
+			c.guard("SEQ.COMBINE", s.ruleCombine)
+			c.guard("SEQ.FOR", s.ruleFor)
+			c.guard("SEQ.GEN", s.ruleGen)
+			c.guard("SEQ.LAZY", s.ruleLazyIters)
+			c.guard("RW.TMPL.YIELDFUNC", r.ruleTmplYieldFunc)
+			c.guard("RW.TMPL.BIND", r.ruleTmplBind)
+			c.guard("RW.TMPL.COMBINE", r.ruleTmplCombine)
+			c.guard("RW.TMPL.FOR", r.ruleTmplFor)
+			c.guard("OPT.WHITELIST", func() { r.ruleOptWhitelist(s) })
+		},
+	})
+}
+
+func init() {
+	register(propSpec{
+		ID: "C11",
+		Explanation: "'The output builds for every accepted program' is not decidable here; decided are the classes of compiler panics and ill-formed output the property names, over symbolic ASTs of every supported statement kind with every optional part present/absent: RW.DISPATCH (every supported kind has an accepting path), RW.FACTORY (the AST factory never panics, e.g. on the nil tag of a tag-less switch), RW.EXH/RW.TERM (the termination checker is total and never over-approximates on ~2000 shapes, incl. unlabelled break in trailing native loops/switches), RW.KINDTAB (block tables defined for every block kind that becomes a thunk body), RW.CLOSE (every statement list wrapped into a thunk is closed with a final return on its path; the list contract closes the block that is actually open), RW.TMPL.FOR (no nil node in a loop call's arguments), RW.BRANCHCTX (break/continue/goto in nested closures stay native: select is a break target), OPT.ETA (closures over builtins, conversions, generic functions, differing types are kept), RW.IMPORT / OPT.ORDER (seq is referred to under the name it is imported under; imports cleaned before printing), RW.TMPL.CONSUMER and RW.RANGEDISPATCH (recorded build-breaking findings D15, D16, D21).",
+		Trusted: []string{"go/printer, go/packages", "go-imports", "go/ssa construction", "go/ast grammar facts"},
+		Run: func(c *Ctx) {
+			r := newRwRT(c)
+			c.guard("RW.DISPATCH", r.ruleCover)
+			c.guard("RW.FACTORY", r.ruleFactory)
+			c.guard("RW.TERM", r.ruleTerm)
+			c.guard("RW.KINDTAB", r.ruleKindTab)
+			c.guard("RW.CLOSE", r.ruleCloseContract)
+			c.guard("RW.CLOSE", r.ruleCloseWrap)
+			c.guard("RW.TMPL.FOR", r.ruleTmplFor)
+			c.guard("RW.BRANCHCTX", r.ruleBranchCtx)
+			c.guard("OPT.ETA", r.ruleOptEta)
+			c.guard("RW.IMPORT", r.ruleImport)
+			c.guard("OPT.ORDER", r.ruleOptOrder)
+			c.guard("RW.TMPL.CONSUMER", r.ruleTmplConsumer)
+			c.guard("RW.RANGEDISPATCH", r.ruleRangeDispatch)
+		},
+	})
+}
